@@ -117,7 +117,8 @@ class Contract:
         return True
 
     def use_contract_at(c, it, args, kwargs):
-        return True
+        # a contract without a call-site summary (result / apply_at) cannot stand for its function: the body is inlined
+        return type(c).result is not Contract.result or hasattr(c, 'apply_at')
 
     def build(self, inputs):
         """concrete python arguments for replay (default: ints and byte strings by parameter name)"""
